@@ -73,10 +73,17 @@ func planAnd(group *hydrapb.FilterGroup) Plan {
 		if !ok {
 			continue
 		}
+		// A labelled leg stays in the residual: it is re-evaluated on the
+		// (small) candidate set so that its label reaches MatchedLabels in
+		// the same position as on the full-scan route.
+		residual := group
+		if leg.GetLabel() == "" {
+			residual = removeFilterAt(group, i)
+		}
 		return Plan{
 			Mode:     PlanModeAnd,
 			Hints:    []BucketHint{hint},
-			Residual: removeFilterAt(group, i),
+			Residual: residual,
 		}
 	}
 
@@ -88,10 +95,14 @@ func planAnd(group *hydrapb.FilterGroup) Plan {
 		if subPlan.Mode != PlanModeOrUnion {
 			continue
 		}
+		residual := group
+		if !hasAnyLabels(sub) {
+			residual = removeSubGroupAt(group, i)
+		}
 		return Plan{
 			Mode:     PlanModeAnd,
 			Hints:    subPlan.Hints,
-			Residual: removeSubGroupAt(group, i),
+			Residual: residual,
 		}
 	}
 
@@ -121,7 +132,13 @@ func planOr(group *hydrapb.FilterGroup) Plan {
 	if len(hints) == 0 {
 		return Plan{Mode: PlanModeBypass}
 	}
-	return Plan{Mode: PlanModeOrUnion, Hints: hints, Residual: nil}
+	// The union itself is the answer, unless a leg carries a label: then
+	// the group is re-evaluated on the candidates to collect the labels.
+	var residual *hydrapb.FilterGroup
+	if hasAnyLabels(group) {
+		residual = group
+	}
+	return Plan{Mode: PlanModeOrUnion, Hints: hints, Residual: residual}
 }
 
 // isEmptyGroup is true when the group has no filters of any kind. We
